@@ -234,14 +234,80 @@ def check(ctx):
                    f"evaluated later in the same aggregate() call -- and only with this implementation -- see reordered/changed data",
                    clause="the order in which accelerated helpers are first used never influences any result")
     ctx.count("kernels using group slices", n_k, 10)
+    # ----------------------------------------------------------- NJIT-optional
+    # A compiled kernel returns a reflected list.  When that list receives both element values and None its Numba
+    # type is list(Optional(T)); with the Numba installed here the conversion of such lists back to Python depends on
+    # which Optional-list kernel was compiled first in the process (observed: after the generic kernel has been
+    # compiled with default=None, the nth and mode kernels return None for EVERY group -- notes/numba_optional_lists.md).
+    ctx.trust("Numba fact (observed, notes/numba_optional_lists.md): results of kernels returning lists that mix values and None "
+              "depend on the order in which such kernels were first compiled")
+    n_lists = 0
+    none_param = {}      # kernel qualname -> parameter names appended next to computed values
+    for f in agg.functions.values():
+        for k in [f] + list(f.nested.values()):
+            if not any(isinstance(d, ast.Call) and norm(d.func) == "njit" or norm(d) == "njit" for d in k.decorator_nodes):
+                continue
+            rets = {n.value.id for n in body_nodes(k.node) if isinstance(n, ast.Return) and isinstance(n.value, ast.Name)}
+            for L in sorted(rets):
+                apps = [c for _, c in calls_in(k, False) if isinstance(c.func, ast.Attribute) and c.func.attr == "append"
+                        and isinstance(c.func.value, ast.Name) and c.func.value.id == L and c.args]
+                if not apps:
+                    continue
+                n_lists += 1
+                leaves = []
+                for c in apps:
+                    from ..forms import split_ifexp
+                    for leaf, _f in split_ifexp(c.args[0]):
+                        leaves.append((leaf, c))
+                nones = [(l, c) for l, c in leaves if isinstance(l, ast.Constant) and l.value is None]
+                params = [(l, c) for l, c in leaves if isinstance(l, ast.Name) and l.id in k.params]
+                values = [(l, c) for l, c in leaves if (l, c) not in nones and (l, c) not in params]
+                for l, c in nones:
+                    okn = not values
+                    ctx.ob("NJIT-optional", k, f"{norm(c)} into the result list of a compiled kernel that also receives values", c, okn,
+                           "the list holds None only" if okn else
+                           f"{k.name} is compiled by Numba and returns a list that receives both element values and None, i.e. a "
+                           f"list(Optional(T)): its conversion back to Python depends on which such kernel was compiled first in the "
+                           f"process, so an aggregation run earlier (in the same call, process, or cache) changes this helper's result",
+                           clause="the order in which accelerated helpers are first used never influences any result")
+                if params and values:
+                    none_param[k.qualname] = sorted({l.id for l, _ in params})
+    ctx.count("result lists of compiled kernels", n_lists, 4)
+    # call sites that bind such a parameter to None (through generic_numba(...)(..., default=None))
+    for h in A.HELPERS:
+        fn = repo.fn(f"{A.AGG}.{h}")
+        g = A.group_form(repo, fn)
+        if g["kernel"] != "generic":
+            continue
+        for kq, ps in none_param.items():
+            if not kq.startswith(f"{A.AGG}.generic_numba"):
+                continue
+            for pname in ps:
+                v = kw(g["call"], pname)
+                if v is None:
+                    continue
+                okp = not (isinstance(v, ast.Constant) and v.value is None)
+                ctx.ob("NJIT-optional", g["closure"], f"{pname}={norm(v)} handed to the compiled generic kernel", g["call"], okp,
+                       f"the compiled kernel appends a {pname} of the elements' own type" if okp else
+                       f"the compiled generic kernel appends `{pname}` next to computed values; bound to None here it returns a "
+                       f"list(Optional(T)) -- compiling THIS kernel before nth/first/last/mode makes those return None for every "
+                       f"group in the rest of the process",
+                       clause="the order in which accelerated helpers are first used never influences any result")
     # ---------------------------------------------------------------- SIB-9
     ov = repo.fn(f"{A.AGG}.is_na_item_numba_overload")
     table = {}
     for s in ov.node.body:
         if isinstance(s, ast.If) and isinstance(s.test, ast.Call) and norm(s.test.func) == "isinstance":
-            ty = norm(s.test.args[1])
+            tys = s.test.args[1].elts if isinstance(s.test.args[1], ast.Tuple) else [s.test.args[1]]
             r = [n for n in ast.walk(s) if isinstance(n, ast.Lambda)]
-            table[ty] = norm(r[0].body) if r else None
+            body = None
+            if r:
+                import re as _re2
+                body = norm(r[0].body)
+                if r[0].args.args:
+                    body = _re2.sub(rf"\b{r[0].args.args[0].arg}\b", "x", body)
+            for ty in tys:
+                table.setdefault(norm(ty), body)
     ok = table.get("types.Float") == "np.isnan(x)" and table.get("types.NPDatetime") == "np.isnat(x)"
     ctx.ob("SIB-9", ov, f"NA test by Numba type {table}", ov.node, ok,
            "float -> isnan, datetime -> isnat, like Vector.is_na" if ok else
@@ -251,6 +317,37 @@ def check(ctx):
     ok = bool(fall) and isinstance(fall[-1].value, ast.Lambda) and norm(fall[-1].value.body) == "False"
     ctx.ob("SIB-9", ov, "other types have no missing value", fall[-1] if fall else ov.node, ok,
            "bool/int are never missing" if ok else "fallback NA test is not constant False", nontrivial=False)
+    # every element type that use_numba() admits has, on the Numba side, the NA test Vector.is_na applies to it
+    HIER = {   # NumPy scalar hierarchy (library fact): abstract classes each concrete kind is a sub-dtype of
+        "boolean": {"np.bool_"}, "integer": {"np.integer", "np.signedinteger", "np.unsignedinteger", "np.number"},
+        "float": {"np.floating", "np.inexact", "np.number"}, "complex": {"np.complexfloating", "np.inexact", "np.number"},
+        "datetime": {"np.datetime64"},
+        "timedelta": {"np.timedelta64", "np.signedinteger", "np.integer", "np.number"},   # timedelta64 IS a signedinteger
+        "string": {"np.str_", "np.character", "np.flexible"}, "bytes": {"np.bytes_", "np.character", "np.flexible"},
+        "object": {"np.object_"}}
+    NUMBA_TYPE = {"float": "types.Float", "datetime": "types.NPDatetime", "timedelta": "types.NPTimedelta",
+                  "string": "types.UnicodeType", "integer": "types.Integer", "boolean": "types.Boolean", "complex": "types.Complex"}
+    EXPECT = {"float": "np.isnan(x)", "datetime": "np.isnat(x)", "timedelta": "np.isnat(x)"}
+    un = repo.fn(f"{A.AGG}.use_numba")
+    admitted_by = {}
+    for c in [c for _, c in calls_in(un) if repo.dotted(un, c.func) == "numpy.issubdtype" and len(c.args) == 2]:
+        t = norm(c.args[1])
+        for kind, supers in HIER.items():
+            if t in supers:
+                admitted_by.setdefault(kind, []).append(t)
+    fallback = norm(fall[-1].value.body) if fall and isinstance(fall[-1].value, ast.Lambda) else None
+    ctx.trust("NumPy scalar hierarchy table in sa/props/C08.py (np.timedelta64 is a sub-dtype of np.integer)")
+    for kind in sorted(admitted_by):
+        got = table.get(NUMBA_TYPE.get(kind, "?"), fallback)
+        want = EXPECT.get(kind, "False")
+        ok = got == want
+        ctx.ob("SIB-9", ov, f"{kind} (admitted to Numba through {admitted_by[kind]}): NA test {got}", ov.node, ok,
+               f"the Numba-side NA test for {kind} is {want}, as in Vector.is_na" if ok else
+               f"use_numba() sends {kind} columns to the Numba kernels (np.issubdtype(dtype, {admitted_by[kind][0]}) is true for them) "
+               f"but the Numba-side NA test for {NUMBA_TYPE.get(kind)} is {got}, not {want}: with drop_na the missing values of such a "
+               f"column are dropped by the Python kernels and kept by the Numba kernels, so results depend on USE_NUMBA",
+               clause="the same values, the same missing-value positions ... whether Numba is used or not")
+    ctx.count("element kinds admitted by use_numba", len(admitted_by), 3)
     isn = repo.fn(f"{A.AGG}.is_na_numba")
     ok = any(norm(c.func) == "is_na_item_numba" for _, c in calls_in(isn))
     ctx.ob("SIB-9", isn, "is_na_numba applies is_na_item_numba element-wise", isn.node, ok, "wired" if ok else "is_na_numba does not use the overload", nontrivial=False)
